@@ -45,6 +45,10 @@ def cases(tier, seed):
     n = 16 if tier == "quick" else 200
     for i in range(n):
         out.append(dict(id="hist%03d" % i, kind="hist", index=i))
+    from vf import au
+    dyn = [c for c in au.stock_cases((".xlsx", ".json")) if "dyn_only" not in c]
+    for c in (dyn[::4] + ["ieee14/ieee14_solar.xlsx", "ieee14/ieee14_wt3.xlsx"] if tier == "quick" else dyn):
+        out.append(dict(id="tcsweep:" + c, kind="tcsweep", case=c))
     for p in ("pf_after_alter", "tconst", "inputs", "json_after_alter", "reset", "group_alter"):
         out.append(dict(id="probe:" + p, kind="probe", probe=p))
     return out
@@ -184,12 +188,22 @@ def run_hist(spec, res):
     import andes
     from vf import au
     rng = rng_for(spec.get("seed", 0), PROPERTY, 2, spec["index"])
-    case = ["kundur/kundur_full.xlsx", "ieee14/ieee14_full.xlsx", "ieee14/ieee14_esst3a.xlsx", "kundur/kundur_exst1.xlsx", "5bus/pjm5bus.xlsx"][
-        int(rng.integers(0, 5))]
+    case = ["kundur/kundur_full.xlsx", "ieee14/ieee14_full.xlsx", "ieee14/ieee14_esst3a.xlsx", "kundur/kundur_exst1.xlsx", "5bus/pjm5bus.xlsx",
+            "ieee14/ieee14_solar.xlsx", "ieee14/ieee14_wt3.xlsx", "ieee14/ieee14_regcp1.xlsx"][int(rng.integers(0, 8))]
     with au.Scratch("c11") as sd:
         rc = au.write_rc(os.path.join(sd, "a.rc"), {"System": dict(mva=float(rng.choice([100, 100, 50, 200]))), "TDS": dict(no_tqdm=1), "PFlow": dict(report=0)})
         ss = au.load(case, config_path=rc)
         avail = [(m, p) for m, p in TARGETS if getattr(ss, m).n > 0 and p in getattr(ss, m).params]
+        # every parameter that is the time constant of one or several differential equations of a model in this system
+        from andes.core.param import NumParam
+        tcs = []
+        for mn, md in ss.exist.tds.items():
+            if md.n == 0:
+                continue
+            for st in md.states.values():
+                if st.t_const is not None and isinstance(st.t_const, NumParam) and st.t_const.name in md.params and (mn, st.t_const.name) not in tcs:
+                    tcs.append((mn, st.t_const.name))
+        res.count("time_constant_parameters_available", len(tcs))
         shadow = {}       # (model, param, idx) -> [vin, v]
         nops = int(rng.integers(10, 41))
         stage = 0
@@ -207,6 +221,8 @@ def run_hist(spec, res):
                 stage = 2
                 log.append("TDS.init")
             m, p = avail[int(rng.integers(0, len(avail)))]
+            if tcs and rng.random() < 0.3:
+                m, p = tcs[int(rng.integers(0, len(tcs)))]
             M = getattr(ss, m)
             par = getattr(M, p)
             j = int(rng.integers(0, M.n))
@@ -261,6 +277,10 @@ def run_hist(spec, res):
                         log[-4:], mm, pp, ii, float(P.vin[u]), float(P.v[u]), vin, v), model=mm, param=pp)
                     break
                 # the number the equations will see
+                # (only for models that are initialised at this stage: looking into the inputs of a dynamic model before
+                #  TDS.init() would evaluate its services on empty arrays - an artefact of looking, not of ANDES)
+                if stage < 2 and not getattr(ss, mm).flags.pflow:
+                    continue
                 inp = getattr(ss, mm).get_inputs()
                 if pp in inp and not (np.shares_memory(inp[pp], P.v) or np.array_equal(inp[pp], P.v)):
                     res.violate("alter_not_in_effect", "after %s: the function inputs of %s still hold %r for %s (parameter is %r)" % (
@@ -270,12 +290,26 @@ def run_hist(spec, res):
                 break
             # time constants go to dae.Tf
             if stage == 2:
-                for st in M.states.values():
-                    if st.t_const is par and len(st.a):
-                        res.count("time_constant_slots_checked")
-                        if ss.dae.Tf[st.a[j]] != par.v[j]:
-                            res.violate("tf_not_updated", "after %s: dae.Tf of %s is %r, the time constant %s.%s is %r" % (
-                                log[-3:], st.name, float(ss.dae.Tf[st.a[j]]), m, p, float(par.v[j])))
+                # invariant over the whole system: every differential equation's slot in dae.Tf and in the integrator's
+                # mass matrix holds the time constant its model holds now
+                Teye = ss.TDS.Teye
+                for md in ss.exist.tds.values():
+                    if md.n == 0 or res.violations:
+                        continue
+                    for st in md.states.values():
+                        if st.t_const is None or not len(st.a):
+                            continue
+                        addr = np.atleast_1d(st.a).astype(int)
+                        want = np.broadcast_to(np.asarray(st.t_const.v, dtype=float), addr.shape)
+                        res.count("time_constant_slots_checked", len(addr))
+                        got = ss.dae.Tf[addr]
+                        gotT = np.array([Teye[int(a_), int(a_)] for a_ in addr])
+                        if not (np.array_equal(got, want) and np.array_equal(gotT, want)):
+                            k_ = int(np.where((got != want) | (gotT != want))[0][0])
+                            res.violate("tf_not_updated", "after %s: dae.Tf / Teye of %s.%s[%d] hold %r / %r, its time constant %s is %r" % (
+                                log[-3:], md.class_name, st.name, k_, float(got[k_]), float(gotT[k_]), st.t_const.name, float(want[k_])),
+                                model=md.class_name, state=st.name)
+                            break
         # reset restores v = vin * k for everything (only allowed before dynamic initialisation)
         if stage < 2 and not res.violations:
             ss.reset()
@@ -293,6 +327,55 @@ def run_hist(spec, res):
 
 
 # ------------------------------------------------------------------------------------------------
+
+def run_tcsweep(spec, res):
+    """After dynamic initialisation: alter every time-constant parameter of every model of the case in turn (one device each);
+    every differential equation using it must see the new value in dae.Tf and in the integrator's mass matrix."""
+    from vf import au
+    from andes.core.param import NumParam
+    rng = rng_for(spec.get("seed", 0), PROPERTY, 5, abs(hash(spec["case"])) % 9973)
+    ss = au.load(spec["case"])
+    res.sig = "tcsweep:" + spec["case"]
+    if ss.dae.n == 0 and not any(md.n and md.flags.tds and len(md.states) for md in ss.models.values()):
+        res.count("tcsweep_no_dynamic_models")
+        return
+    if not ss.PFlow.run():
+        res.inconc("power flow failed")
+        return
+    ss.TDS.config.no_tqdm = 1
+    ss.TDS.init()
+    for mn, md in ss.exist.tds.items():
+        if md.n == 0:
+            continue
+        users = {}
+        for st in md.states.values():
+            if st.t_const is not None and isinstance(st.t_const, NumParam) and st.t_const.name in md.params and len(st.a):
+                users.setdefault(st.t_const.name, []).append(st)
+        for pn, sts in users.items():
+            j = int(rng.integers(0, md.n))
+            par = md.params[pn]
+            old = float(par.vin[j])
+            new = old * 1.37 if old != 0 else 0.137
+            try:
+                md.alter(pn, md.idx.v[j], new)
+            except Exception as e:
+                res.violate("alter_raises", "%s: %s.alter(%s, %r, %g) after TDS.init raised %r" % (spec["case"], mn, pn, md.idx.v[j], new, e))
+                return
+            res.count("tcsweep_alterations")
+            if len(sts) > 1:
+                res.count("tcsweep_shared_time_constants")
+            for st in sts:
+                a_ = int(np.atleast_1d(st.a)[j])
+                res.count("time_constant_slots_checked")
+                got, gotT, want = float(ss.dae.Tf[a_]), float(ss.TDS.Teye[a_, a_]), float(par.v[j])
+                if got != want or gotT != want:
+                    res.violate("tf_not_updated", "%s: after %s.alter(%s, %r, %g) dae.Tf / Teye of state %s hold %r / %r, the parameter is %r "
+                                "(%d states use this time constant)" % (spec["case"], mn, pn, md.idx.v[j], new, st.name, got, gotT, want, len(sts)),
+                                model=mn, state=st.name)
+                    return
+    res.nontrivial = res.obs.get("tcsweep_alterations", 0) >= 3
+    res.sample = dict(case=spec["case"], alterations=res.obs.get("tcsweep_alterations", 0), shared=res.obs.get("tcsweep_shared_time_constants", 0))
+
 
 def run_probe(spec, res):
     import andes
@@ -403,7 +486,7 @@ def run_probe(spec, res):
 
 def run_case(spec):
     res = Result(spec)
-    {"pu": run_pu, "pugen": run_pugen, "hist": run_hist, "probe": run_probe}[spec["kind"]](spec, res)
+    {"pu": run_pu, "pugen": run_pugen, "hist": run_hist, "probe": run_probe, "tcsweep": run_tcsweep}[spec["kind"]](spec, res)
     return res
 
 
